@@ -155,6 +155,58 @@ def tw_file(tmpdir, rng, start):
     return p
 
 
+def directed(rng):
+    """hand-designed families around feature interplay that random sampling rarely reaches; yields (js, strategy, options)"""
+    out = []
+    # D1: cheap price + local surplus + stations rated below the vehicle power (greedy / balanced / distributed)
+    for _ in range(3):
+        js = scen.gen_scenario(rng, n_gc=1, n_veh=rng.randint(1, 3), features={"generation", "price"}, steps=rng.choice([6, 10]), interval=rng.choice([15, 60]))
+        gid = list(js["components"]["grid_connectors"])[0]
+        for cs in js["components"]["charging_stations"].values():
+            cs["max_power"] = rng.choice([3.7, 11])
+        for vt in js["components"]["vehicle_types"].values():
+            vt["charging_curve"] = [[0, 22], [1, 22]]
+        for v in js["components"]["vehicles"].values():
+            v["soc"] = rng.choice([0.2, 0.5])
+        for sig in js["events"]["grid_operator_signals"]:
+            if "cost" in sig:
+                sig["cost"] = {"type": "fixed", "value": rng.choice([0, -0.1, 0.05])}
+        js["components"]["grid_connectors"][gid]["cost"] = {"type": "fixed", "value": 0}
+        for g in js["events"]["local_generation"].values():
+            g["values"] = [rng.choice([40, 60, 25]) for _ in g["values"]]
+        for st in ("greedy", "balanced", "distributed"):
+            out.append((js, st, {"PRICE_THRESHOLD": rng.choice([0, 0.1])}))
+    # D2: V2G vehicle at a station rated below its discharge power, price high now and cheap later (look-ahead strategies, greedy)
+    for _ in range(2):
+        js = scen.gen_scenario(rng, n_gc=1, n_veh=2, features={"v2g", "price", "fixed"}, steps=10, interval=60)
+        gid = list(js["components"]["grid_connectors"])[0]
+        start = datetime.datetime.fromisoformat(js["scenario"]["start_time"])
+        for vt in js["components"]["vehicle_types"].values():
+            vt.update({"v2g": True, "v2g_power_factor": 1, "discharge_limit": 0.2, "charging_curve": [[0, 22], [1, 22]]})
+        for cs in js["components"]["charging_stations"].values():
+            cs["max_power"] = 11
+        for v in js["components"]["vehicles"].values():
+            v.update({"soc": 0.9, "desired_soc": 0.5})
+        js["events"]["grid_operator_signals"] = [
+            {"signal_time": scen.iso(start), "start_time": scen.iso(start + datetime.timedelta(hours=k)), "grid_connector_id": gid,
+             "cost": {"type": "fixed", "value": c}} for k, c in ((0, 0.5), (3, 0.05), (6, 0.4))]
+        for st in ("balanced_market", "greedy", "balanced", "peak_shaving"):
+            out.append((js, st, {"ALLOW_NEGATIVE_SOC": True}))
+    # D3: stationary battery + cheap price + limit below the rating from the start
+    for _ in range(2):
+        js = scen.gen_scenario(rng, n_gc=1, n_veh=2, features={"battery", "price", "limit", "fixed"}, steps=8, interval=60)
+        gid = list(js["components"]["grid_connectors"])[0]
+        start = datetime.datetime.fromisoformat(js["scenario"]["start_time"])
+        for b in js["components"]["batteries"].values():
+            b["soc"] = 0.1
+        js["components"]["grid_connectors"][gid]["cost"] = {"type": "fixed", "value": -0.1}
+        js["events"]["grid_operator_signals"].append({"signal_time": scen.iso(start), "start_time": scen.iso(start + datetime.timedelta(hours=2)),
+                                                      "grid_connector_id": gid, "max_power": js["components"]["grid_connectors"][gid]["max_power"] / 2})
+        for st in ("greedy", "balanced", "distributed", "balanced_market", "peak_shaving"):
+            out.append((js, st, {}))
+    return out
+
+
 def pool(seed, tier, strategies=None, n_fast=None, n_slow=None, inject=False, feature_sets=None):
     """list of run records.  quick: ~45 fast scenarios x 3 fast strategies + ~8 small scenarios x slow strategies"""
     rng = random.Random("pool/%d" % seed)
@@ -164,6 +216,9 @@ def pool(seed, tier, strategies=None, n_fast=None, n_slow=None, inject=False, fe
     recs = []
     tmp = tempfile.mkdtemp(prefix="verif_sim_")
     try:
+        for js, st, opts in directed(rng):
+            if st in strategies:
+                recs.append(run_record(js, st, opts))
         for i in range(n_fast):
             # exact rationals grow with every step: long runs only in the thorough tier
             js = scen.gen_scenario(rng, steps=rng.choice([4, 8, 12, 16]) if (tier == "quick" or i % 4) else None)
@@ -274,7 +329,7 @@ class RunLoopUnit(corr.Unit):
                     C.lst("{| cs_max := %s; cs_load := %s |}" % (C.q(a), C.q(b_)) for a, b_ in css))
                     for m, cm, loads, css in gcs)))
         rows = []
-        for i in range(case["step_i"]):
+        for i in range(min([case["step_i"]] + [len(case["totalLoad"][g]) for g in case["gc_ids"]])):
             rows.append("(%s, %s)" % (C.lst(C.q(case["totalLoad"][g][i]) for g in case["gc_ids"]),
                                       C.lst(C.q(case["localGen"][g][i]) for g in case["gc_ids"])))
         return "{| rc_eps := %s; rc_steps := %s; rc_rows := %s; rc_aborted := %s |}" % (
@@ -332,7 +387,12 @@ def check_c04(rec):
                     cls = "C04/forecast-mismatch/"       # allocation planned on the weekly-average fixed load
                 elif gs["cur_max"] < gs["max"] and abs(load) <= gs["max"] + eps:
                     cls = "C04/limit-below-rating/"      # planned against the rating although a lower operator limit is in force
-                v.append((cls + rec["strategy"],
+                if cls == "C04/strategy-breaks-limit/":
+                    nobat = max(-gs["max"], sum((val for k, val in gs["loads"].items() if k not in rec["bat_keys"]), F(0)))
+                    comp = "/stationary-battery" if abs(nobat) <= gs["cur_max"] + eps else "/stations"
+                else:
+                    comp = ""
+                v.append((cls + rec["strategy"] + comp,
                           "step %d %s: fixed-generation = %s within limit %s but load after strategy = %s: %s; loads=%s js=%s" % (
                               i, g, float(base), float(gs["cur_max"]), float(load), desc,
                               {k: float(x) for k, x in gs["loads"].items()}, json.dumps(rec["js"], default=str)[:1500])))
